@@ -202,6 +202,12 @@ func predicateAtoms(fn *ssa.Function, want bool) []Atom {
 // satisfying target that is reachable without executing an instruction
 // satisfying barrier. nil when every path is blocked.
 func searchAvoiding(fn *ssa.Function, from ssa.Instruction, target, barrier func(ssa.Instruction) bool) ssa.Instruction {
+	return searchAvoidingDead(fn, from, target, barrier, nil)
+}
+
+// searchAvoidingDead is searchAvoiding that does not follow the edges
+// (block, successor index) that dead reports as infeasible.
+func searchAvoidingDead(fn *ssa.Function, from ssa.Instruction, target, barrier func(ssa.Instruction) bool, dead func(*ssa.BasicBlock, int) bool) ssa.Instruction {
 	type start struct {
 		b *ssa.BasicBlock
 		i int
@@ -242,7 +248,10 @@ func searchAvoiding(fn *ssa.Function, from ssa.Instruction, target, barrier func
 		if blocked {
 			continue
 		}
-		for _, nx := range s.b.Succs {
+		for si, nx := range s.b.Succs {
+			if dead != nil && dead(s.b, si) {
+				continue
+			}
 			if !seen[nx] {
 				seen[nx] = true
 				work = append(work, start{nx, 0})
